@@ -380,7 +380,7 @@ def run_property(prop_id, tier="quick", seed=0, jobs=None, only=None, write_evid
 
 
 MAX_REPLAYS_PER_OBLIGATION = 3
-HARNESS_TIMEOUT_S = 600
+HARNESS_TIMEOUT_S = 3600   # last-resort wall-clock guard per check (the real budget is CPU time per harness)
 
 DEFAULT_TRUSTED = [
     "CPython ast parser (the verified text is the ast of the working-tree file, re-read on every run)",
